@@ -10,6 +10,9 @@ Decided (shared with C08/C09 through the functions below):
   R07.3  slot walk: inside `while scheduleSlot()` the cursor moves by exactly +1 (forward) / -1 (backward)
          and nothing reachable from scheduleSlot writes it; the forward cursor starts in the slot of the bound
          (offset 0), the backward cursor one slot before the deadline (offset -1); the walk stops at the horizon
+  R07.4  the dependency bound is a max-accumulator over all edges, gap added before the comparison (= C04 R04.2 forward)
+  R07.5  a team is booked only when every member is available and within the task limits for the slot (= C03 R03.1)
+  R07.6  a slot is booked only under the availability and task-limit facts for that slot and resource (= C03 R03.6)
 Not decided: equality with an independent reference scheduler — a relation between computed values that
 no static argument in reach can establish.
 """
@@ -20,7 +23,7 @@ import ast
 from ..cfg import cfg_of
 from ..core import Ctx, key_of
 from ..dep import data, full
-from ..model import AnchorMissing, const_str, dotted, norm, own_nodes
+from ..model import AnchorMissing, Inconclusive, const_str, dotted, norm, own_nodes
 from ..order import affine, local_resolver, mono, order_table
 from .common import calls_named, heap_writes
 
@@ -37,22 +40,51 @@ META = {
 def sort_rules(ctx: Ctx, rule: str):
     repo = ctx.repo
     ss = repo.func("Project.scheduleScenario")
-    sk = None
-    for f in ss.nested.values():
-        if f.name == "sort_key":
-            sk = f
     sorts = [c for c in own_nodes(ss) if isinstance(c, ast.Call) and isinstance(c.func, ast.Attribute) and c.func.attr == "sort"
              and norm(c.func.value) == "tasks"] + \
             [c for c in own_nodes(ss) if isinstance(c, ast.Call) and norm(c.func) == "sorted"]
-    if sk is None or not sorts:
-        raise AnchorMissing("scheduleScenario: sort_key / tasks.sort not found")
+    if not sorts:
+        raise AnchorMissing("scheduleScenario: tasks.sort / sorted not found")
     srt = sorts[0]
     keykw = next((k.value for k in srt.keywords if k.arg == "key"), None)
     rev = next((k.value for k in srt.keywords if k.arg == "reverse"), None)
     reverse = isinstance(rev, ast.Constant) and bool(rev.value)
-    ok = keykw is not None and norm(keykw) == "sort_key"
-    ctx.ob(rule, f"{ss.qual}: {norm(srt)}", (ss, srt), ok, "work list sorted with sort_key" if ok else "work list is not sorted by sort_key",
+    # resolve the key function: nested def, lambda, or a method of Project / module function
+    sk = None
+    if isinstance(keykw, ast.Name):
+        sk = next((f for f in ss.nested.values() if f.name == keykw.id), None)
+        if sk is None and repo.has_func(keykw.id):
+            sk = repo.func(keykw.id)
+    elif isinstance(keykw, ast.Attribute) and isinstance(keykw.value, ast.Name) and keykw.value.id in ("self", "cls", "Project"):
+        if repo.has_func("Project." + keykw.attr):
+            sk = repo.func("Project." + keykw.attr)
+    elif isinstance(keykw, ast.Lambda):
+        sk = next((f for f in ss.nested.values() if f.node is keykw), None)
+    ok = sk is not None
+    ctx.ob(rule, f"{ss.qual}: {norm(srt)}", (ss, srt), ok, f"work list sorted with {sk.qual}" if ok else
+           "the work list is not sorted with a key function the analysis can resolve (no key: declaration order only, priority ignored)",
            key=key_of(rule, ss, None, "sort call"))
+    if sk is None:
+        if keykw is None:
+            return
+        raise Inconclusive(f"scheduleScenario: sort key {norm(keykw)} cannot be resolved to a function")
+    # the key reads the attributes of the scenario that is being scheduled
+    sc_param = next((a.arg for a in ss.node.args.args if a.arg not in ("self", "cls")), None)
+    nested = sk in ss.nested.values()
+    for c in [x for x in own_nodes(sk) if isinstance(x, ast.Call) and isinstance(x.func, ast.Attribute) and x.func.attr == "get"
+              and len(x.args) >= 2 and const_str(x.args[0]) in ("priority", "pathcriticalness")]:
+        a = c.args[1]
+        if isinstance(a, ast.Name) and nested and a.id == sc_param:
+            ok = True
+        elif isinstance(a, ast.Constant):
+            ok = False
+        else:
+            raise Inconclusive(f"{sk.qual}: scenario argument {norm(a)} of {norm(c)} cannot be related to {ss.qual}'s {sc_param}")
+        ctx.ob(rule, f"{sk.qual}: {norm(c)} reads the scenario being scheduled", (sk, c), ok,
+               f"scenario argument is {ss.qual}'s {sc_param}" if ok else
+               f"the sort key reads {const_str(c.args[0])} of the fixed scenario {norm(a)}, not of the scenario being scheduled: in "
+               "every other scenario tasks are ordered by the wrong priorities",
+               key=f"{rule}|sort_key|scenario {const_str(c.args[0])}")
     res = local_resolver(sk.node)
 
     def reads(attr):
@@ -157,6 +189,28 @@ def scan_rules(ctx: Ctx, rule: str):
                  and isinstance(n.test, ast.UnaryOp) and any(isinstance(s, ast.Continue) for s in n.body)]
         ctx.ob(rule, f"{ss.qual}: tasks that are not ready are skipped", (ss, loop), bool(skips),
                "if not ready: continue" if skips else "readiness no longer gates the placement", key=key_of(rule, ss, None, "ready gate"))
+    # container roll-up before the next readiness scan: readiness of a task that depends on a container is decided from the
+    # container's `scheduled` flag, which only _updateContainerTaskStatus sets
+    ready_nodes = [n for n in g.nodes if n.ast is not None and n.kind != "for" and any(
+        isinstance(x, ast.Call) and isinstance(x.func, ast.Attribute) and x.func.attr == "readyForScheduling" for x in ast.walk(
+            n.ast.test if isinstance(n.ast, (ast.If, ast.While)) else n.ast))]
+    if not ready_nodes:
+        raise AnchorMissing("scheduleScenario: readyForScheduling test not found")
+
+    def rolls(n):
+        if n.ast is None:
+            return False
+        root = n.ast.test if isinstance(n.ast, (ast.If, ast.While)) else (n.ast.iter if isinstance(n.ast, ast.For) else n.ast)
+        return any(isinstance(x, ast.Call) and isinstance(x.func, ast.Attribute) and x.func.attr == "_updateContainerTaskStatus"
+                   for x in ast.walk(root))
+    for c in sched_calls:
+        node = g.node_containing(c)
+        ok = all(g.all_paths_pass(node, d, rolls) for d in ready_nodes)
+        ctx.ob(rule, f"{ss.qual}: containers are rolled up between a placement and the next readiness test", (ss, c), ok,
+               "every path from task.schedule() to the next readyForScheduling() passes _updateContainerTaskStatus()" if ok else
+               "after a placement the next readiness scan can run before the completed containers are marked scheduled: a task that "
+               "depends on a container is passed over although it is ready, and lower-priority tasks are placed first",
+               key=key_of(rule, ss, None, "roll-up before rescan"))
     # removal
     rem = [c for c in own_nodes(ss) if isinstance(c, ast.Call) and isinstance(c.func, ast.Attribute) and c.func.attr == "remove"
            and norm(c.func.value) == "tasks"]
@@ -165,7 +219,7 @@ def scan_rules(ctx: Ctx, rule: str):
     # work list = unscheduled leaves
     for n in own_nodes(ss):
         if isinstance(n, (ast.Assign, ast.AnnAssign)) and norm(n.targets[0] if isinstance(n, ast.Assign) else n.target) == "tasks" \
-                and isinstance(n.value, ast.ListComp):
+                and isinstance(n.value, ast.ListComp) and not any(norm(g_.iter) == "tasks" for g_ in n.value.generators):
             conds = " and ".join(norm(c) for g_ in n.value.generators for c in g_.ifs)
             ok = ".leaf()" in conds and "not " in conds and "scheduled" in conds
             ctx.ob(rule, f"{ss.qual}: work list filter [{conds}]", (ss, n), ok, "only leaves that are not scheduled yet" if ok else
@@ -241,6 +295,16 @@ def run(ctx: Ctx):
     sort_rules(ctx, "R07.1")
     scan_rules(ctx, "R07.2")
     cursor_rules(ctx, "R07.3")
+    # "earliest slots at or after its dependency bound in which its resource(s) are working, unbooked and within limits":
+    # the structural clauses already decided for C04 / C03, re-instantiated for this property
+    from .c04 import forward_bound_accumulator
+    from .c03 import booking_guard_rule, team_gate_rules
+    forward_bound_accumulator(ctx, "R07.4")
+    team_gate_rules(ctx, "R07.5")
+    booking_guard_rule(ctx, "R07.6")
+    ctx.floor("R07.4", 8)
+    ctx.floor("R07.5", 5)
+    ctx.floor("R07.6", 1)
     ctx.floor("R07.1", 6)
     ctx.floor("R07.2", 5)
     ctx.floor("R07.3", 7)
